@@ -6,6 +6,10 @@ from .callgraph import non_production
 LOCK_FN = "lock_api::mutex::Mutex::<R, T>::lock"
 STD_LOCK_FNS = ("std::sync::Mutex::<T>::lock", "std::sync::poison::mutex::Mutex::<T>::lock")
 LOCK_FNS = (LOCK_FN,) + STD_LOCK_FNS
+# grin_util::static_secp_instance() itself locks the global secp mutex (to re-randomise the
+# context) before it returns the Arc: every *call* is a momentary acquisition of SECP
+# (witnessed by W2: a probe calling it while another thread held the guard blocked there).
+MOMENTARY = {"grin_util::secp_static::static_secp_instance": "SECP"}
 
 # different names of the same mutex object (confirmed by reading the construction sites)
 ALIASES = {
@@ -132,6 +136,12 @@ class LockAnalysis:
                 self.sites[fid] = ls
         # transitive acquisitions
         self.acq = {fid: {s.ident for s in ls} for fid, ls in self.sites.items()}
+        for fid, f in self.db.fns.items():
+            if non_production(fid):
+                continue
+            for _b, t in f.calls():
+                if t.get("f") in MOMENTARY:
+                    self.acq.setdefault(fid, set()).add(MOMENTARY[t["f"]])
         changed = True
         while changed:
             changed = False
@@ -164,6 +174,9 @@ class LockAnalysis:
                     if t.get("f") in LOCK_FNS:
                         j = lock_identity(f, t)
                         edges.setdefault((s.ident, j), []).append((fid, pp.short(fid), _site(t), "direct"))
+                        continue
+                    if t.get("f") in MOMENTARY:
+                        edges.setdefault((s.ident, MOMENTARY[t["f"]]), []).append((fid, pp.short(fid), _site(t), "direct (momentary lock inside the callee)"))
                         continue
                     for callee, _k in self.cg.targets_of_call(t):
                         if non_production(callee):
